@@ -265,6 +265,14 @@ theorem source_containsKelvin (s : Bytes) (root off : Nat) (h : Heap)
   have := Str.containsKelvin s root off h _ _ hK hF
   simpa [A.containsKelvin, bne, int_beq] using this
 
+/-- `IndexByte` of the source relative to `indexRuneCase` only (through `C10.source_indexByte`) -/
+theorem source_IndexByte_via_indexRuneCase (s : Bytes) (c : UInt8) (h : Heap) (hls : s.length < 4611686018427387904)
+    (hCore : ∀ (s' : Bytes) (r : Int), ∃ N, ∀ fuel, N ≤ fuel →
+      run Gen.Src.str false fuel (Frame.entry str_indexRuneCase [.str s' 0 0, .int r]) h = .ok [.int (A.indexRuneCase scfg s' r)] h) :
+    Ret Gen.Src.str false str_IndexByte [arg s 0, .int c.toNat] h [.int (A.IndexByte scfg s c)] h := by
+  have := source_IndexByte s c h h (fun _ => C10.source_indexByte s 0 0 c h hls hCore)
+  simpa using this
+
 end source
 
 section sourceB
